@@ -506,12 +506,16 @@ func (t *Tpl) writeNode(w io.Writer, node *node, ctx *Ctx) (err error) {
 			return
 		}
 	case typeBreak:
-		// Break the loop.
-		ctx.brkD = node.loopBrkD
+		// Break the loop. A depth already pending from a lazybreak stays in force.
+		if node.loopBrkD > ctx.brkD {
+			ctx.brkD = node.loopBrkD
+		}
 		err = ErrBreakLoop
 	case typeLBreak:
 		// Lazy break the loop.
-		ctx.brkD = node.loopBrkD
+		if node.loopBrkD > ctx.brkD {
+			ctx.brkD = node.loopBrkD
+		}
 		err = ErrLBreakLoop
 	case typeContinue:
 		// Go to next iteration of loop.
